@@ -822,6 +822,9 @@ func c18WatchdogOutlivesRequest(c *Ctx, r *Report, rule string) {
 				r.check(!(enabled && perRequest), "C18.R4", key, posOf(c, al), "no watchdog task is started for a connection that is closed at the end of the request that dialled it",
 					"the client starts go-diameter's watchdog goroutine for every connection it dials (EnableWatchdog), and "+shortFn(dialFn[member])+" closes the connection at the end of the request: go-diameter ends that goroutine only through the connection's close notification, which is not delivered when the connection is closed before a message was read from it after the handshake (diam/server.go closeNotify: the notifying copy routine is installed at the next Read) - every request that times out or fails before its answer leaves one goroutine that wakes up every WatchdogInterval for ever")
 			}
+			if dialCall[member] == nil {
+				r.check(!enabled, "C18.R4", key, posOf(c, al), "no watchdog task is started by this client", "the client enables go-diameter's watchdog and the function that dials with it could not be identified: cannot tell whether its connections outlive one request")
+			}
 			if !enabled {
 				r.proven(rule, key, posOf(c, al), "watchdog not enabled for this client")
 				return
